@@ -354,6 +354,9 @@ fn type_label(v: &GVal) -> &'static str {
 pub enum TextCase {
     Ref(u128),
     Uid(u32, u32, i64),
+    /// any text: the parsers answer Ok or Err, never by panicking (text of the right byte length
+    /// with multi-byte characters at arbitrary offsets is the interesting part)
+    Garbage(String),
 }
 
 fn text_body(case: &TextCase, ctx: &mut CaseCtx) -> PropResult {
@@ -377,6 +380,12 @@ fn text_body(case: &TextCase, ctx: &mut CaseCtx) -> PropResult {
                 Err(e) => fail!("text:uid-parse", "{u:?} prints as {s}, which does not parse: {e}"),
             }
             ctx.label_if(*rnd < 0, "negative_random");
+        }
+        TextCase::Garbage(t) => {
+            ctx.label_if(t.len() == 32 && !t.is_ascii(), "non_ascii_text_of_32_bytes");
+            let r = no_panic("UniqueId::from_str", || UniqueId::from_str(t).is_ok())?;
+            ensure!(!r || t.len() == 32, "text:uid-accepts-garbage", "UniqueId::from_str accepts {t:?}");
+            no_panic("Ref::from_str", || Ref::from_str(t).is_ok())?;
         }
     }
     Ok(())
@@ -626,11 +635,28 @@ pub fn run(ctx: &Ctx) -> PropertyReport {
                 1 => select(vec![0u128, 1, u128::MAX, 1 << 127, (1 << 127) - 1, u64::MAX as u128, 1 << 64]).prop_map(TextCase::Ref),
                 2 => (any::<u32>(), any::<u32>(), any::<i64>()).prop_map(|(i, t, r)| TextCase::Uid(i, t, r)),
                 1 => (select(vec![0u32, 1, u32::MAX]), select(vec![0u32, 1, u32::MAX]), select(vec![0i64, 1, -1, -5, i64::MAX, i64::MIN, i64::MIN + 1, 1 << 62])).prop_map(|(i, t, r)| TextCase::Uid(i, t, r)),
+                2 => proptest::collection::vec(select(vec!['0', 'f', 'A', '9', 'g', '-', ' ', '\u{e9}', '\u{20AC}', '\u{1F600}']), 0..40).prop_map(|v| {
+                    // fitted to 32 bytes most of the time
+                    let mut t = String::new();
+                    for c in v {
+                        if t.len() + c.len_utf8() > 32 {
+                            break;
+                        }
+                        t.push(c);
+                    }
+                    if t.len() % 3 != 0 {
+                        while t.len() < 32 {
+                            t.push('0');
+                        }
+                    }
+                    TextCase::Garbage(t)
+                }),
             ]
         };
         let mut r = ctx.run_prop("text", cases, strat, text_body);
         r.floor("negative_random", cases / 20);
         r.floor("null_ref", cases / 2000);
+        r.floor("non_ascii_text_of_32_bytes", cases / 20);
         rep.push(r);
     }
     if sub.runs("conversions") {
